@@ -89,7 +89,7 @@ def expectations(prog, text, line_of, stmt_first, ex, run, ref=None):
     if run is None:
         return why
     if ref is None:
-        ref = P.reference(prog.source, prog.uses_await())
+        ref = P.reference_prog(prog)
     rT, rout, rbind, rerr = ref
     if rerr is not None:
         return why   # the generator produced a program that does not run: not a case
@@ -104,7 +104,10 @@ def expectations(prog, text, line_of, stmt_first, ex, run, ref=None):
         diff = {k: (run['ns'].get(k), rbind.get(k)) for k in set(run['ns']) | set(rbind) if run['ns'].get(k) != rbind.get(k)}
         why.append('final bindings differ from the plain program: %r' % (diff,))
     s = run['summary']
-    if s is None or not s.get('passed'):
+    if prog.unexpected_raise() is not None:
+        if s is None or not s.get('failed'):
+            why.append('summary %r, expected failed: statement %d raises and no traceback is wanted' % (s, prog.unexpected_raise()))
+    elif s is None or not s.get('passed'):
         why.append('summary %r (failure: %s), expected passed' % (s, run['exc']))
     # per part output
     outs = P.per_statement_stdout(prog)
@@ -181,7 +184,8 @@ def family_random(seed, shard, count, **kw):
 
 
 FIRSTS = [('assign', None, None), ('assign', '+ELLIPSIS', None), ('print', None, None), ('print', None, 'want'),
-          ('directive', None, None), ('expr', None, 'want'), ('comment', None, None)]
+          ('directive', None, None), ('expr', None, 'want'), ('comment', None, None), ('kwcomment', None, None),
+          ('printraise', None, 'tb'), ('compoundraise', None, 'tb'), ('callraise', None, 'tb')]
 
 
 def family_pairs(shard, nshards, lasts=('none', 'expr-want', 'self-want')):
@@ -203,13 +207,13 @@ def family_pairs(shard, nshards, lasts=('none', 'expr-want', 'self-want')):
                                                         and not (kind == 'multiexpr' and style != 'new')):
                             continue
                         # a new example directly after a want may start at ANY column
-                        layouts = [(0, 0), (4, 0), (0, 4), (2, 3)] if fw == 'want' else [(0, 0)]
+                        layouts = [(0, 0), (4, 0), (0, 4), (2, 3)] if fw in ('want', 'tb') else [(0, 0)]
                         for indent, (sh1, sh2) in [(a, b) for a in ('', '    ') for b in layouts]:
                             i += 1
                             if i % nshards != shard:
                                 continue
                             stmts = []
-                            if fk in ('directive', 'comment'):
+                            if fk in ('directive', 'comment', 'kwcomment'):
                                 stmts.append(P.Stmt('assign', 0, 'new'))
                             ref = None
                             if kind in P.DEF_FOR:
@@ -227,12 +231,17 @@ def family_pairs(shard, nshards, lasts=('none', 'expr-want', 'self-want')):
                                 st.shift = sh1
                                 if st is s1:
                                     sh1 = sh2      # everything after the first want sits in the second column
+                            if fw == 'tb':
+                                s1.want = P.traceback_want(s1)     # expected exception: the doctest goes on
                             prog = P.Program(stmts, indent)
                             outs = P.per_statement_stdout(prog)
                             if any(o is None for o in outs):
                                 continue
                             acc = ''
                             for s, o in zip(stmts, outs):
+                                if s.kind in P.RAISE_KINDS:
+                                    acc = ''       # what its part wrote is logged but never compared with a want
+                                    continue
                                 acc += o
                                 if s is s1 and fw == 'want':
                                     s.want = acc.rstrip('\n').split('\n') if acc.strip() else ['%d' % s.k]
